@@ -428,11 +428,11 @@ func (c *Ctx) Cmp(op token.Token, x, y Term, t types.Type) Term {
 	ii, ok := intInfoOf(t)
 	if !ok {
 		if isFloat(t) {
-			f := c.Fun("f64."+sanitize(op.String()), []Sort{SF64, SF64}, SBool)
+			f := c.Fun("f64."+opName(op), []Sort{SF64, SF64}, SBool)
 			return f(x, y)
 		}
 		if isString(t) {
-			f := c.Fun("str.cmp"+sanitize(op.String()), []Sort{SStr, SStr}, SBool)
+			f := c.Fun("str.cmp."+opName(op), []Sort{SStr, SStr}, SBool)
 			return f(x, y)
 		}
 		panic("Cmp on " + t.String())
